@@ -38,6 +38,11 @@ def skiplist_mechanism(ctx, thorough):
     for cfg in ["MC_2t.cfg", "MC_pre.cfg", "MC_3t.cfg"] + (["MC_pre_all.cfg", "MC_seq.cfg", "MC_2t_big.cfg"] if thorough else []):
         r = vlib.model_check(ctx, SL, "MC", cfg, workers=14, timeout=3000, jvm=("-Xmx12g",))
         out[cfg] = r["distinct"]
+    if thorough:
+        # random deep behaviours of a larger configuration (3 threads x 3 operations of any kind after 5 loads, 6 keys,
+        # 6 nodes, 2 values, page ids handed out again): TLC simulation mode, 24 000 behaviours of ~340 steps
+        r = vlib.model_check(ctx, SL, "MC", "MC_sim.cfg", workers=8, timeout=1800, extra=["-simulate", "num=3000", "-depth", "400"], name="MC-sim")
+        out["MC_sim.cfg (simulation, states checked)"] = r["generated"]
     # sensitivity: the switches that stand for the repaired defect (KF-C17-skiplist-page-id-reuse) and for the
     # counter protocol itself must each break an invariant
     sens = [("MC_pre_zero.cfg", "new nodes start at counter 0"), ("MC_pre_stale.cfg", "fetch of an evicted removed page reads the file"),
